@@ -21,7 +21,8 @@ theorem stepCS_result_shape {y : SysS} (h : CInvS y) (t r : Nat) (v : Metric) (h
      (∃ id sl, alookup t y.sched.pending = some (id, sl) ∧ y.lastOf t < r ∧ r < sl.level ∧
         ¬ (y.sched.prevLvl id sl.rungIndex < r ∧ y.sched.searcherAll = true ∧ v.isNan = false) ∧
         (∃ calls, y.sched.onResult t r v = .ok (y.sched, .continue, calls)) ∧
-        stepCS y (.result t r v) = { sched := y.sched, st := y.st, last := aset t r y.last }) ∨
+        (∃ st2, st2.pending = y.st.pending ∧ st2.observed = y.st.observed ∧ st2.mode = y.st.mode ∧
+          stepCS y (.result t r v) = { sched := y.sched, st := st2, last := aset t r y.last })) ∨
      (∃ id sl x, alookup t y.sched.pending = some (id, sl) ∧ y.lastOf t < r ∧ r < sl.level ∧
         y.sched.prevLvl id sl.rungIndex < r ∧ y.sched.searcherAll = true ∧ v = .val x ∧
         (∃ calls, y.sched.onResult t r v = .ok (y.sched, .continue, calls)) ∧
@@ -41,9 +42,9 @@ theorem stepCS_result_shape {y : SysS} (h : CInvS y) (t r : Nat) (v : Metric) (h
         s'.mgr.bracketRungs = y.sched.mgr.bracketRungs ∧
         Frame y.sched.mgr s'.mgr (some (id, sl.rungIndex, sl.slotIndex)) ∧
         s'.mgr.SlotAt id sl.rungIndex sl.slotIndex ⟨some t, some .nan⟩ ∧
-        stepCS y (.result t r v) =
-          { sched := s', st := { y.st with pending := dropPending t sl.level y.st.pending },
-            last := aset t sl.level y.last })) := by
+        (∃ st2, st2.pending = dropPending t sl.level y.st.pending ∧ st2.observed = y.st.observed ∧
+          st2.mode = y.st.mode ∧
+          stepCS y (.result t r v) = { sched := s', st := st2, last := aset t sl.level y.last }))) := by
   have hres : ResultOK (alookup t y.sched.pending) (y.lastOf t) r := hok
   rcases result_sum h.inv t r v with ⟨hnone, hs⟩ | ⟨id, sl, hlook, hlt, hs⟩ |
       ⟨id, sl, s', hlook, heq, hs, hI', hp', hsa, hsys, hfr, hans⟩ | ⟨id, sl, e, hlook, hlt, _⟩
@@ -69,8 +70,9 @@ theorem stepCS_result_shape {y : SysS} (h : CInvS y) (t r : Nat) (v : Metric) (h
           simp only [hc1, if_true, hc2, List.map_cons, List.map_nil, trCall, applyActs_single, applyAct, apply_update_true]
         refine ⟨⟨_, _, _, h1, h2⟩, Or.inr (Or.inr (Or.inl ⟨id, sl, x, hlook, hl1, hlt, hc1, hc2, rfl, ⟨_, hs⟩, ?_⟩))⟩
         rw [stepCS_ok h1 h2, hg]
-    · have h2 : applyActs y.st ((if y.sched.prevLvl id sl.rungIndex < r
-          then [SCall.update t r v y.sched.searcherAll] else []).map trCall) = .ok y.st := by
+    · have h2 : ∃ st2, st2.pending = y.st.pending ∧ st2.observed = y.st.observed ∧ st2.mode = y.st.mode ∧
+          applyActs y.st ((if y.sched.prevLvl id sl.rungIndex < r
+            then [SCall.update t r v y.sched.searcherAll] else []).map trCall) = .ok st2 := by
         by_cases hp : y.sched.prevLvl id sl.rungIndex < r
         · cases v with
           | nan =>
@@ -83,28 +85,37 @@ theorem stepCS_result_shape {y : SysS} (h : CInvS y) (t r : Nat) (v : Metric) (h
               simp only at hpl
               omega
             cases hsa : y.sched.searcherAll with
-            | false => simp only [hp, if_true, List.map_cons, List.map_nil, trCall, applyActs_single, applyAct, apply_update_false]
+            | false =>
+              refine ⟨y.st, rfl, rfl, rfl, ?_⟩
+              simp only [hp, if_true, List.map_cons, List.map_nil, trCall, applyActs_single, applyAct, apply_update_false]
             | true =>
-              simp only [hp, if_true, List.map_cons, List.map_nil, trCall, applyActs_single, applyAct,
-                dropPending_not_mem t r _ hnp]
+              refine ⟨markFailed { y.st with pending := dropPending t r y.st.pending } t, ?_,
+                markFailed_observed _ _, markFailed_mode _ _, ?_⟩
+              · rw [markFailed_pending]; exact dropPending_not_mem t r _ hnp
+              · simp only [hp, if_true, List.map_cons, List.map_nil, trCall, applyActs_single, applyAct]
           | val x =>
             have hsa : y.sched.searcherAll = false := by
               cases hx : y.sched.searcherAll with
               | false => rfl
               | true => exact absurd ⟨hp, hx, rfl⟩ hc
+            refine ⟨y.st, rfl, rfl, rfl, ?_⟩
             simp only [hp, if_true, hsa, List.map_cons, List.map_nil, trCall, applyActs_single, applyAct, apply_update_false]
-        · simp only [hp, if_false, List.map_nil]; rfl
-      refine ⟨⟨_, _, _, h1, h2⟩, Or.inr (Or.inl ⟨id, sl, hlook, hl1, hlt, hc, ⟨_, hs⟩, ?_⟩)⟩
+        · refine ⟨y.st, rfl, rfl, rfl, ?_⟩
+          simp only [hp, if_false, List.map_nil]; rfl
+      obtain ⟨st2, e1, e2, e3, h2⟩ := h2
+      refine ⟨⟨_, _, _, h1, h2⟩, Or.inr (Or.inl ⟨id, sl, hlook, hl1, hlt, hc, ⟨_, hs⟩, st2, e1, e2, e3, ?_⟩)⟩
       rw [stepCS_ok h1 h2, hg]
   · subst heq
     have h1 := step_result hs
     cases v with
     | nan =>
       have h2 : applyActs y.st (([SCall.update t sl.level .nan true]).map trCall) =
-          .ok { y.st with pending := dropPending t sl.level y.st.pending } := by
+          .ok (markFailed { y.st with pending := dropPending t sl.level y.st.pending } t) := by
         simp only [List.map_cons, List.map_nil, trCall, applyActs_single, applyAct]
       refine ⟨⟨_, _, _, h1, h2⟩, Or.inr (Or.inr (Or.inr (Or.inr
-        ⟨id, sl, s', hlook, rfl, rfl, hs, hI', hp', hsa, hsys, hfr, hans, ?_⟩)))⟩
+        ⟨id, sl, s', hlook, rfl, rfl, hs, hI', hp', hsa, hsys, hfr, hans,
+          markFailed { y.st with pending := dropPending t sl.level y.st.pending } t,
+          markFailed_pending _ _, markFailed_observed _ _, markFailed_mode _ _, ?_⟩)))⟩
       rw [stepCS_ok h1 h2]
       simp only [ghostNext, hlook, Option.isSome_some, if_true]
     | val x =>
@@ -128,17 +139,18 @@ theorem cinvS_milestone_nan {y : SysS} (h : CInvS y) {t id : Nat} {sl : SlotInRu
     (hp' : s'.pending = adel t y.sched.pending) (hsa : s'.searcherAll = y.sched.searcherAll)
     (hsys : s'.mgr.bracketRungs = y.sched.mgr.bracketRungs)
     (hfr : Frame y.sched.mgr s'.mgr (some (id, sl.rungIndex, sl.slotIndex)))
-    (hans : s'.mgr.SlotAt id sl.rungIndex sl.slotIndex ⟨some t, some .nan⟩) :
-    CInvS { sched := s', st := { y.st with pending := dropPending t sl.level y.st.pending },
-            last := aset t sl.level y.last } := by
-  apply cinvS_failed (st' := { y.st with pending := dropPending t sl.level y.st.pending })
-    h hlook hI' hp' hsa hsys hfr hans (nodup_dropPending _ _ _ h.pnd) ?_ rfl rfl
+    (hans : s'.mgr.SlotAt id sl.rungIndex sl.slotIndex ⟨some t, some .nan⟩)
+    {st2 : SState} (hp2 : st2.pending = dropPending t sl.level y.st.pending)
+    (ho2 : st2.observed = y.st.observed) (hm2 : st2.mode = y.st.mode) :
+    CInvS { sched := s', st := st2, last := aset t sl.level y.last } := by
+  apply cinvS_failed (st' := st2)
+    h hlook hI' hp' hsa hsys hfr hans (by rw [hp2]; exact nodup_dropPending _ _ _ h.pnd) ?_ ho2 hm2
   · intro t' hne
     unfold SysS.lastOf
     rw [alookup_aset]
     simp only [hne, if_false]
   · intro p
-    change p ∈ dropPending t sl.level y.st.pending ↔ _
+    rw [hp2]
     constructor
     · intro hp
       have hp0 := mem_of_mem_dropPending _ _ _ _ hp
@@ -157,15 +169,15 @@ theorem cinvS_milestone_nan {y : SysS} (h : CInvS y) {t id : Nat} {sl : SlotInRu
 
 theorem cinvS_result {y : SysS} (h : CInvS y) (t r : Nat) (v : Metric) (hok : OpOKS y (.result t r v)) :
     CInvS (stepCS y (.result t r v)) := by
-  rcases (stepCS_result_shape h t r v hok).2 with ⟨_, _, he⟩ | ⟨id, sl, hlook, hl, hr, _, _, he⟩ |
+  rcases (stepCS_result_shape h t r v hok).2 with ⟨_, _, he⟩ | ⟨id, sl, hlook, hl, hr, _, _, st2, e1, e2, e3, he⟩ |
       ⟨id, sl, x, hlook, hl, hr, hp, ha, _, _, he⟩ |
       ⟨id, sl, s', x, hlook, _, _, _, hI', hp', hsa, hsys, hfr, hans, he⟩ |
-      ⟨id, sl, s', hlook, _, _, _, hI', hp', hsa, hsys, hfr, hans, he⟩
+      ⟨id, sl, s', hlook, _, _, _, hI', hp', hsa, hsys, hfr, hans, st2, e1, e2, e3, he⟩
   · rw [he]; exact h
-  · rw [he]; exact cinvS_relast h hlook hl hr
+  · rw [he]; exact cinvS_st_congr (st := y.st) (cinvS_relast h hlook hl hr) e1 e2 e3
   · rw [he]; exact cinvS_label_run h hlook hl hr hp ha _
   · rw [he]; exact cinvS_milestone h hlook hI' hp' hsa hsys hfr x hans
-  · rw [he]; exact cinvS_milestone_nan h hlook hI' hp' hsa hsys hfr hans
+  · rw [he]; exact cinvS_milestone_nan h hlook hI' hp' hsa hsys hfr hans e1 e2 e3
 
 /-! ### `on_trial_error` -/
 
@@ -279,11 +291,11 @@ theorem accepted_step {y : SysS} (h : CInvS y) (op : Op) (hok : OpOKS y op) : Ac
   | result t r v => exact (stepCS_result_shape h t r v hok).1
   | error t => exact (stepCS_error_shape h t).1
   | complete t r v =>
-    refine ⟨y.sched, { calls := [SCall.update t r v true] }, y.st, rfl, ?_⟩
+    have h1 : y.sched.step (.complete t r v) = .ok (y.sched, { calls := [SCall.update t r v true] }) := rfl
     cases v with
     | nan =>
-      have hnp : (t, r) ∉ y.st.pending := hok
-      simp only [List.map_cons, List.map_nil, trCall, applyActs_single, applyAct, dropPending_not_mem t r _ hnp]
+      refine ⟨_, _, markFailed { y.st with pending := dropPending t r y.st.pending } t, h1, ?_⟩
+      simp only [List.map_cons, List.map_nil, trCall, applyActs_single, applyAct]
     | val x =>
       have hobs : obsAt y.st t r = some (y.st.crit x) := hok
       have hlab : y.st.isLabeled t r = true := by rw [lab_iff, hobs]; rfl
@@ -292,6 +304,7 @@ theorem accepted_step {y : SysS} (h : CInvS y) (op : Op) (hok : OpOKS y op) : Ac
         have := pending_not_labeled h hp
         simp only at this
         rw [hlab] at this; cases this
+      refine ⟨_, _, y.st, h1, ?_⟩
       simp only [List.map_cons, List.map_nil, trCall, applyActs_single, applyAct, apply_update_true]
       rw [label_noop _ _ _ _ hobs hnp]
   | remove t => exact ⟨_, _, y.st, rfl, rfl⟩
@@ -302,7 +315,7 @@ theorem cinvS_step' {y : SysS} (h : CInvS y) (op : Op) (hok : OpOKS y op) : CInv
   | suggest tid c => exact (stepCS_suggest_shape h tid c hok).2.1
   | result t r v => exact cinvS_result h t r v hok
   | error t => exact cinvS_error h t
-  | complete t r v => rw [stepCS_complete h t r v hok]; exact h
+  | complete t r v => exact cinvS_complete h t r v hok
   | remove t => exact h
   | takeRemovable => exact cinvS_takeRemovable h
 
@@ -329,18 +342,22 @@ theorem step_stable {y : SysS} (h : CInvS y) (op : Op) (hok : OpOKS y op) :
         ⟨id, sl, s', x, hlook, _, _, _, hI', hp', hsa, hsys, hfr, hans, he⟩ |
         ⟨_, _, _, _, _, _, _, _, _, _, _, _, _, he⟩
     · rw [he]; exact ⟨rfl, fun _ _ _ hc => hc⟩
-    · rw [he]; exact ⟨rfl, fun _ _ _ hc => hc⟩
+    · obtain ⟨st2, _, e2, e3, he⟩ := he
+      rw [he]; exact ⟨e3, fun t r c hc => by change obsAt st2 t r = some c; rw [obsAt_congr e2]; exact hc⟩
     · rw [he]; exact ⟨rfl, key _ _ _ (fresh_level h hlook hp hl)⟩
     · rw [he]
       obtain ⟨hlv, hplt, _⟩ := pend_level h.inv hlook
       exact ⟨rfl, key _ _ _ (fresh_level h hlook (by rw [hlv]; exact hplt) (h.lastOk _ _ _ hlook))⟩
-    · rw [he]; exact ⟨rfl, fun _ _ _ hc => hc⟩
+    · obtain ⟨st2, _, e2, e3, he⟩ := he
+      rw [he]; exact ⟨e3, fun t r c hc => by change obsAt st2 t r = some c; rw [obsAt_congr e2]; exact hc⟩
   | error t0 =>
     obtain ⟨_, st', _, hobs, hmode, hc⟩ := stepCS_error_shape h t0
     rcases hc with ⟨_, he⟩ | ⟨_, _, _, _, _, _, _, _, _, _, he⟩
     · rw [he]; exact ⟨hmode, fun t r c hc => by change obsAt st' t r = some c; rw [obsAt_congr hobs]; exact hc⟩
     · rw [he]; exact ⟨hmode, fun t r c hc => by change obsAt st' t r = some c; rw [obsAt_congr hobs]; exact hc⟩
-  | complete t0 r0 v => rw [stepCS_complete h t0 r0 v hok]; exact ⟨rfl, fun _ _ _ hc => hc⟩
+  | complete t0 r0 v =>
+    obtain ⟨st2, _, e2, e3, _, he⟩ := stepCS_complete h t0 r0 v hok
+    rw [he]; exact ⟨e3, fun t r c hc => by change obsAt st2 t r = some c; rw [obsAt_congr e2]; exact hc⟩
   | remove t0 => exact ⟨rfl, fun _ _ _ hc => hc⟩
   | takeRemovable => exact ⟨rfl, fun _ _ _ hc => hc⟩
 
